@@ -13,4 +13,10 @@ CHECKS = {
         "note": "Trusts the reference models written from the docstrings; fixed lists strictly increasing; parameters restricted to where the lattice is resolvable in double precision (dt >= 1e-9*|t|, geometric factor >= 1.001).",
         "technique": "stateful property-based testing against a reference model (Hypothesis RuleBasedStateMachine)",
     },
+    "C02": {
+        "text": "Generated (grid class 1-3 axes, rank 0-2, real/complex data, complete boundary-condition assignment rendered in every accepted format incl. aliases, named sides, wildcard, legacy lists, ready-made objects; constants, tensors, per-face arrays, coordinate expressions, time/state-dependent expression and callable conditions) and judged by the documented condition evaluated on ghost/valid cells from the semantic description (value, outward derivative, Robin, curvature, periodic/anti-periodic; normal-only conditions leave other components bit-identical; valid cells untouched); interpreted setter, compiled setter (interpreted-source breadth + real-JIT sample), get_boundary_values and format parsing round trip. Exploration: held on all generated cases.",
+        "ref": "DESIGN.md section 4, C02",
+        "note": "Trusts the independent reference semantics in vlib/gen_bcs.py; singular Robin conditions (|2+gamma*dx|<0.1) excluded; corners not judged; NUMBA_DISABLE_JIT breadth executes the same source as the compiled setter, real JIT only for a sample.",
+        "technique": "property-based testing with a validity-predicate oracle computed from a semantic input description (Hypothesis)",
+    },
 }
